@@ -80,6 +80,17 @@ func (a *act) siteAsserts(site ssa.CallInstruction, cs callSite, args []Val, st 
 		}
 		env := a.bodyEnv(st, site.Block())
 		env.callArgs = args
+		// inside a loop body: $i / $outer name the index of the current iteration of the enclosing range loops
+		var inner *loopInfo
+		for _, li := range a.loops {
+			if li.blocks[site.Block()] && li.head != site.Block() && (inner == nil || len(li.blocks) < len(inner.blocks)) {
+				inner = li
+			}
+		}
+		if inner != nil {
+			env.loop = inner
+			env.inBody = true
+		}
 		for _, c := range csp.Asserts {
 			t, err := env.evalBool(c.E)
 			if err != nil {
